@@ -3,7 +3,7 @@
     binary - is observed on the implementation and tied to this model by correspondence; see DESIGN.md 4/C09): *)
 From Coq Require Import List ZArith NArith Bool Lia.
 From BL Require Import Base.Bytes Reader.Entry Reader.EventStream Reader.RobustProofs Render.Time Render.TimeProofs
-  Mser.Types Mser.Tag Mser.Visit Mser.RobustProofs Gen.SrcFacts.
+  Mser.Types Mser.Tag Mser.Visit Mser.RobustProofs Mser.BoundProofs Gen.SrcFacts.
 Import ListNotations.
 
 Definition cfg_src := mkTC SrcFacts.time_floor SrcFacts.time_yy_nonneg SrcFacts.time_tz_wide.
@@ -51,7 +51,21 @@ Example C09_deep_nesting_rejected :
   /\ match visit false nospec 2048 selfref selfref [] with VErr VRecursion _ => true | _ => false end = true.
 Proof. split; [exact deep_sequences_rejected | exact self_reference_rejected]. Qed.
 
-(** NOT a theorem: "output is bounded by a small polynomial of the input". The faithful model refutes it (recorded finding D6,
+(** Output size. For EVERY tag (any bytes) and EVERY input (any bytes), with the recursion limit of the sources: unless a struct
+    back-reference [{Name}] is resolved to a non-empty definition while visiting ([noback], a computable predicate on the tag), the visitor
+    callbacks - delivered, or made before the error was reported - number at most 4|tag| + 16|tag|^2 |input|. *)
+Theorem C09_callbacks_bounded_without_backrefs : forall tag input, noback tag (N.to_nat SrcFacts.visit_max_recursion) tag = true ->
+  (callbacks_of (visit false nospec (N.to_nat SrcFacts.visit_max_recursion) tag tag input) <= 4 * length tag + 16 * length tag * length tag * length input)%nat.
+Proof.
+  generalize (eq_refl : SrcFacts.visit_singular_visits_once = true). generalize SrcFacts.visit_singular_visits_once. intros b1 ->.
+  generalize (eq_refl : SrcFacts.visit_singular_threshold = 32%N). generalize SrcFacts.visit_singular_threshold at 1. intros n1 _.
+  intros tag input. apply callbacks_bounded.
+Qed.
+Print Assumptions C09_callbacks_bounded_without_backrefs.
+Example C09_bound_nonvacuous : SrcFacts.visit_max_recursion = 2048%N /\ noback ordinary_tag 2048 ordinary_tag = true /\ noback d6a_tag 2048 d6a_tag = false.
+Proof. split; [reflexivity|]. split; [exact ordinary_noback|exact d6a_has_backref]. Qed.
+
+(** NOT a theorem without that hypothesis: "output is bounded by a small polynomial of the input". The faithful model refutes it (recorded finding D6,
     known_findings.json): 20 bytes of tag and input produce 12000 visitor callbacks (6 per claimed element, up to 2^32 elements). *)
 Theorem C09_no_amplification_refuted : exists tag input, (length tag + length input <= 20)%nat /\
   match visit false nospec 2048 tag tag input with VOk (cbs, _) => (12000 <=? N.of_nat (length cbs))%N | _ => false end = true.
